@@ -18,6 +18,50 @@ CLAIMED = {
         "file names valid Unicode without NUL; the '//' root is outside the model.",
         "DESIGN.md §7 C17",
     ),
+    "C16": (
+        "Lean 4 induction over the call sequence of the Count state machine + differential test vs the real CountTag and CLI runs",
+        "Proved in Lean for every parameter set, every interleaving of directories and every position: the k-th call "
+        "sharing a counter returns start+k*step (rendered), per-directory counters are independent, values never "
+        "repeat (step != 0), rendering is injective and zfill never truncates (parse-back), invalid parameters are "
+        "rejected. The model (Count.lean) is tied to the real CountTag by a differential stream over random "
+        "interleavings/aliasing roots, and the property is re-evaluated on CLI runs with several Count tags, "
+        "contexts and aliases.",
+        "Trusted: Lean kernel; hand-written model tied by sampled correspondence; str(int)/zfill of CPython as reference.",
+        "DESIGN.md §7 C16",
+    ),
+    "C19": (
+        "Lean 4 proof that the chunked read loop equals one-shot hashing for every streaming hash and chained CRC-32 (bit-level), :08x spec; CHUNK_SIZE extracted from source; differential test vs hashlib/zlib",
+        "Proved in Lean for every content and every positive chunk size: the chunks are non-empty, in order and "
+        "concatenate to the file; hence any streaming hash fed chunk-wise equals the one-shot hash; the chained "
+        "bit-level CRC-32 equals the CRC of the whole content; '08x' yields eight lowercase digits denoting the value. "
+        "CHUNK_SIZE is re-extracted from hash.py each run and the theorem crc32Tag_eq is re-checked for it. The real "
+        "tags are compared with hashlib/zlib on boundary lengths, leading-zero CRCs and a large file; the bit-level CRC "
+        "with zlib.",
+        "Trusted: Lean kernel; MD5/SHA compression functions and hashlib's streaming behaviour (sampled); zlib.crc32 = "
+        "bit-level definition (sampled); file reads return the file's bytes.",
+        "DESIGN.md §7 C19",
+    ),
+    "C20": (
+        "Lean 4 theorems on the invocation builder/result decoder + probe program differential test (argv, stdin, cwd) at tag and CLI level",
+        "Proved in Lean: argv is exactly program :: args (++ relative path without context), arguments are never "
+        "split/joined/reordered, a context (the empty one included) is sent as its UTF-8 bytes on stdin, cwd is the "
+        "input directory, the value is the stripped stdout on success and stderr never enters it. A vendored probe "
+        "program records what the real AdHocTag and the CLI actually pass, on hostile arguments/contexts/file names, "
+        "with a canary on tempren's own stdin; str.isspace is compared with the model for all code points.",
+        "Trusted: Lean kernel; execve/pipe semantics of subprocess.run (list, no shell); program output is UTF-8.",
+        "DESIGN.md §7 C20",
+    ),
+    "C12": (
+        "Lean 4 theorems on the registry lookup (case-insensitive category, unique bare name, ambiguity lists all sorted, permutation invariance) + differential test vs the real TagRegistry and --help on the live registry",
+        "Proved in Lean for every registry whose categories are distinct up to case: qualified lookup succeeds for any "
+        "letter case of the category, bare lookup succeeds iff the name is in exactly one category, ambiguity reports "
+        "all holders sorted, unknown category/name are distinguished and located, tag names are matched exactly, and "
+        "the result is invariant under any permutation of the registration order. Tied to the real TagRegistry on "
+        "random registries (each built in two orders) and to the CLI for every pair printed by --list-tags, with "
+        "ad-hoc tags and aliases shadowing built-in names.",
+        "Trusted: Lean kernel; hand-written model tied by sampled correspondence; ASCII-only lower-casing.",
+        "DESIGN.md §7 C12",
+    ),
 }
 
 NOT_YET = "check not built yet in this snapshot of /verif (work in progress, see DESIGN.md §7)"
